@@ -49,6 +49,9 @@ PROPS = {
             'documented identities: schematic instances through the real '
             'filter/mutations, denotation in z3; constant evaluation '
             'bounded'),
+    'C15': ('contracts.c15', 'exploration',
+            'all proposals of all mutators on a corpus: applicable, '
+            'lexically closed, fresh names fresh'),
 }
 
 
